@@ -8,7 +8,7 @@ Driver for C09.  Request line:   <op>|<arg>|<arg>|...
                      for lower-case two more fields: cased code points, case-ignorable code points
 Answer:            <model value>|<spec value>
   values: `S:<code points>`  `B:0|1`  `I:<int>`  `L:<ints>` (`L:` = empty sequence)  `ERR:<code>`
-ops: conv ctoken substring2 substring3 before after contains starts ends translate translate1 normalize concat join
+ops: conv ctoken cp2sx substring2 substring3 before after contains starts ends translate translate1 normalize concat join
      length compare cpequal s2cp cp2s upper lower encode iri html
      upperG lowerG (case tables of EPV/Gen/C09Case.lean, regenerated from the live CPython)
      hbefore hafter hcontains hstarts hends hcompare (HTML ASCII case-insensitive collation)
@@ -117,6 +117,27 @@ def parseNumArg (s : String) : Option FOStrings.NumArg :=
 
 def answerBase (line : String) : String :=
   match line.splitOn "|" with
+  | ["cp2sx", items] =>       -- items: `i:<int>` `u:<int>` `u:-` (untyped, not an integer) `b` `s` `o`
+    let parseItem (t : String) : Option FOStrings.CpItem :=
+      match t.splitOn ":" with
+      | ["i", v] => (int? v).map .int
+      | ["u", "-"] => some (.untyped none)
+      | ["u", v] => (int? v).map fun x => .untyped (some x)
+      | ["b"] => some .bool
+      | ["s"] => some .str
+      | ["o"] => some .other
+      | _ => none
+    let toks := (items.trimAscii.toString.splitOn " ").filter (· ≠ "")
+    match toks.mapM parseItem with
+    | none => "bad-arg"
+    | some l =>
+      let show1 (r : Except FOStrings.CpErr Str) : String :=
+        match r with
+        | .ok s => vS s
+        | .error .FOCH0001 => "ERR:FOCH0001" | .error .XPTY0004 => "ERR:XPTY0004"
+        | .error .FORG0001 => "ERR:FORG0001" | .error .FORG0006 => "ERR:FORG0006"
+      show1 (Strings.codepointsToStringItems l) ++ "|" ++ show1 (FOStrings.codepointsToStringItems l) ++ "|" ++
+        (if Strings.cpItemsTrigger l then "1" else "0")
   | "ctoken" :: col :: tok :: input =>
     match parseNats tok, input.mapM parseNats with
     | some tok, some input =>
